@@ -574,6 +574,29 @@ func report(o *checkOpts, tierN int, known *knownFile, results []JobResult, hs [
 						}
 					}
 				}
+				// failures the engine reported itself (sat obligations of the same job) are consistent, not a mismatch
+				if !okRun && (nr.Outcome == "assert" || nr.Outcome == "panic" || nr.Outcome == "hang") {
+					satMsgs := map[string]bool{}
+					satPanic := false
+					for _, ob := range c.job.Obls {
+						if ob.Status == "sat" && ob.Kind == "assert" {
+							satMsgs[ob.Msg] = true
+						}
+						if ob.Status == "sat" && ob.Kind != "assert" && ob.Kind != "reach" {
+							satPanic = true
+						}
+					}
+					if nr.Outcome == "assert" {
+						okRun = true
+						for _, f := range nr.Failed {
+							if !satMsgs[f] {
+								okRun = false
+							}
+						}
+					} else {
+						okRun = satPanic
+					}
+				}
 				tagOK := false
 				for _, t := range nr.Reached {
 					if t == c.obl.Msg {
